@@ -1,6 +1,6 @@
 (* C41 Macros ... never recurse (recursion clause). Statements only. *)
 From Coq Require Import ZArith List Bool Arith.
-From OP Require Import lib.Obs model.C41 proofs.C41_proofs.
+From OP Require Import lib.Obs model.C41 model.Interp model.InterpRun proofs.Interp_inv proofs.C41_proofs proofs.C41_registry.
 Import ListNotations.
 From Coq Require Import Lia.
 
@@ -19,7 +19,7 @@ Theorem C41_reported_chain_is_genuine : forall t target f vis body p v,
 Proof. exact sound. Qed.
 Print Assumptions C41_reported_chain_is_genuine.
 
-Theorem C41_search_terminates : forall t target body, search (S (length t)) t target [] body <> None.
+Theorem C41_search_terminates : forall t target body, search (Datatypes.S (length t)) t target [] body <> None.
 Proof. intros t target body. apply fuel_enough. pose proof (unvisited_bound t). lia. Qed.
 Print Assumptions C41_search_terminates.
 
@@ -49,6 +49,27 @@ Theorem C41_recursive_call_fails : forall p e b n nm m k s,
   Interp.would_recurse p s nm m = true -> Interp.dispatch p e b n k s = Interp.Raise k s.
 Proof. exact recursive_call_fails. Qed.
 Print Assumptions C41_recursive_call_fails.
+
+(* the registry over whole runs: every transition of the interpreter model keeps the registry, except the execution of a
+   definition line that is not yet registered, which puts that line under its own name (with C41_latest_definition_wins and
+   C41_other_macros_untouched_by_a_definition: the name then resolves to that line, every other name as before) *)
+Theorem C41_only_a_definition_line_changes_the_registry : forall p e b f k s,
+  C41_registry.reg_step p f s (C41_registry.out_state (step p e b f k s)).
+Proof. exact C41_registry.step_reg. Qed.
+Print Assumptions C41_only_a_definition_line_changes_the_registry.
+(* after every tick of every run every registry entry is a Macro definition line carrying the entry's name *)
+Theorem C41_registry_holds_definitions_of_the_name : forall p ts,
+  Forall (fun s => Forall (fun x => n_kind (nd p (snd x)) = KMacro (fst x)) (macros s)) (states p [FVisit 0] (InterpRun.init p) 0%Z ts).
+Proof. exact C41_registry.registry_wf_always. Qed.
+Print Assumptions C41_registry_holds_definitions_of_the_name.
+(* so a call either fails or runs the children of the definition registered under the called name *)
+Theorem C41_call_runs_the_registered_definition : forall p e b n nm k s,
+  Forall (fun x => n_kind (nd p (snd x)) = KMacro (fst x)) (macros s) -> n_kind (nd p n) = KCallMacro nm ->
+  dispatch p e b n k s = Raise k s
+  \/ exists m s1, macro_lookup (macros s) nm = Some m /\ n_kind (nd p m) = KMacro nm
+                  /\ dispatch p e b n k s = Go (FKidsEntry m :: FCallAfter n m :: k) s1.
+Proof. exact C41_registry.call_runs_registered_definition. Qed.
+Print Assumptions C41_call_runs_the_registered_definition.
 
 (* PARTIAL: "once per call, lines in order" is covered by the correspondence of the interpreter model (C02's monitors run on
    methods with macros) and by the run stream below, not by a theorem; "a started macro may not be edited or removed"
